@@ -388,7 +388,15 @@ func checkC14(p *Prog, r *Report) {
 				return
 			}
 			if fv, base := fieldAddrOf(st.Addr); nil != fv && "Stdin" == fv.Name() && isCmd(base) {
-				if _, isP := stripConv(st.Val, false).(*ssa.Parameter); isP {
+				/* The reader itself, or on some paths a wrapper whose Read
+				passes buffer, count and error through. */
+				all := true
+				for _, l := range phiLeaves(st.Val) {
+					if _, isP := stripConv(unwrapPassThrough(p, l.V, "Read"), false).(*ssa.Parameter); !isP {
+						all = false
+					}
+				}
+				if all {
 					okk = true
 				}
 			}
@@ -692,36 +700,62 @@ func recvCount(fn *ssa.Function, ch ssa.Value, before ssa.Instruction) (int64, s
 // diagnostics which only looks): what that field holds where v is made.
 // Anything else is returned as it is.
 func unwrapPassThroughWriter(p *Prog, v ssa.Value) ssa.Value {
+	return unwrapPassThrough(p, v, "Write")
+}
+
+// unwrapPassThrough: the same for the method named (Read or Write), for
+// wrappers used by value or through a pointer.
+func unwrapPassThrough(p *Prog, v ssa.Value, method string) ssa.Value {
 	for depth := 0; depth < 3; depth++ {
 		x := stripConv(resolveCell(v), false)
-		st, ok := x.Type().Underlying().(*types.Struct)
+		t := x.Type()
+		if pt, isPtr := t.Underlying().(*types.Pointer); isPtr {
+			t = pt.Elem()
+		}
+		st, ok := t.Underlying().(*types.Struct)
 		if !ok {
 			return v
 		}
 		ms := p.SSA.MethodSets.MethodSet(x.Type())
 		var wr *ssa.Function
 		for k := 0; k < ms.Len(); k++ {
-			if "Write" == ms.At(k).Obj().Name() {
+			if method == ms.At(k).Obj().Name() {
 				wr = p.SSA.MethodValue(ms.At(k))
 			}
 		}
-		if nil == wr || nil == wr.Blocks || !inModule(wr) || 2 != len(wr.Params) {
+		if nil == wr || nil == wr.Blocks || !inModule(wr) || len(wr.Params) < 1 || len(wr.Params) > 2 {
 			return v
 		}
-		/* The one inner Write, on a field of the receiver, with our p. */
+		noArg := 1 == len(wr.Params) /* Accept() and the like */
+		/* The one inner call, on a field of the receiver, with our p. */
 		var inner *ssa.Call
 		field := -1
 		n := 0
 		eachInstr(wr, func(i ssa.Instruction) {
 			c, isCall := i.(*ssa.Call)
-			if !isCall || !c.Common().IsInvoke() || "Write" != c.Common().Method.Name() {
+			if !isCall {
+				return
+			}
+			var recv, buf ssa.Value
+			switch {
+			case noArg && c.Common().IsInvoke() && method == c.Common().Method.Name() && 0 == len(c.Common().Args):
+				recv = c.Common().Value
+			case noArg && !c.Common().IsInvoke() && strings.HasSuffix(calleeName(c.Common()), ")."+method) && 1 == len(c.Common().Args):
+				recv = c.Common().Args[0]
+			case noArg:
+				return
+			case c.Common().IsInvoke() && method == c.Common().Method.Name() && 1 == len(c.Common().Args):
+				recv, buf = c.Common().Value, c.Common().Args[0]
+			case !c.Common().IsInvoke() && strings.HasSuffix(calleeName(c.Common()), ")."+method) && 2 == len(c.Common().Args):
+				recv, buf = c.Common().Args[0], c.Common().Args[1]
+			default:
 				return
 			}
 			n++
-			if 1 != len(c.Common().Args) || resolveCell(c.Common().Args[0]) != ssa.Value(wr.Params[1]) {
+			if !noArg && resolveCell(buf) != ssa.Value(wr.Params[1]) {
 				return
 			}
-			recv := stripConv(resolveCell(c.Common().Value), false)
+			recv = stripConv(resolveCell(recv), false)
 			if f, isF := recv.(*ssa.Field); isF && resolveCell(f.X) == ssa.Value(wr.Params[0]) {
 				inner, field = c, f.Field
 			}
@@ -746,7 +780,9 @@ func unwrapPassThroughWriter(p *Prog, v ssa.Value) ssa.Value {
 		okRet := true
 		eachInstr(wr, func(i ssa.Instruction) {
 			ret, isRet := i.(*ssa.Return)
-			if !isRet {
+			if !isRet || "RoundTrip" == method {
+				/* (A RoundTripper may turn the inner answer into a
+				refusal; what matters is that it asks nobody else.) */
 				return
 			}
 			if 2 != len(ret.Results) {
@@ -766,22 +802,30 @@ func unwrapPassThroughWriter(p *Prog, v ssa.Value) ssa.Value {
 			return v
 		}
 		/* What the field holds where the value is made. */
-		var held ssa.Value
+		var al *ssa.Alloc
 		switch y := x.(type) {
 		case *ssa.UnOp:
-			if al, isAl := y.X.(*ssa.Alloc); isAl && token.MUL == y.Op {
-				for _, ref := range *al.Referrers() {
-					if fa, isFA := ref.(*ssa.FieldAddr); isFA && fa.Field == field {
-						for _, r2 := range *fa.Referrers() {
-							if s2, isSt := r2.(*ssa.Store); isSt && s2.Addr == ssa.Value(fa) {
-								held = s2.Val
-							}
+			if a, isAl := y.X.(*ssa.Alloc); isAl && token.MUL == y.Op {
+				al = a
+			}
+		case *ssa.Alloc:
+			al = y
+		}
+		var held ssa.Value
+		nst := 0
+		if nil != al {
+			for _, ref := range *al.Referrers() {
+				if fa, isFA := ref.(*ssa.FieldAddr); isFA && fa.Field == field {
+					for _, r2 := range *fa.Referrers() {
+						if s2, isSt := r2.(*ssa.Store); isSt && s2.Addr == ssa.Value(fa) {
+							held = s2.Val
+							nst++
 						}
 					}
 				}
 			}
 		}
-		if nil == held {
+		if nil == held || 1 != nst {
 			return v
 		}
 		v = held
